@@ -77,6 +77,10 @@ impl Vector {
             return false;
         }
         for i in 0..self.len() {
+            // rel_diff compares magnitudes only: values of opposite sign are never close
+            if (self[i] > 0. && other[i] < 0.) || (self[i] < 0. && other[i] > 0.) {
+                return false;
+            }
             if rel_diff(self[i], other[i]) > tol {
                 return false;
             }
